@@ -186,3 +186,24 @@ CHECKS['C07'] = dict(
     jobs=_mode_jobs('MODE_CRASH', [1, 3, 5], reach=('died', 'survived', 'recovered'), quick_defs=['VERIF_MAX_EVENTS=40'], bounds='build from the empty tree killed after persistence event 0..40, -j in {1,2}, every completion order; recovery build; no-op build') +
          _mode_jobs('MODE_CRASH', [1, 3], extra=['FROM_BUILT'], suffix='_built', reach=('died', 'recovered'), quick_defs=['VERIF_MAX_EVENTS=30'], bounds='the same from a fully built tree after symbolic edits/deletions', thorough_only=True) +
          _mode_jobs('MODE_CRASH', [0, 3, 5], extra=['INTERRUPT'], suffix='_interrupt', reach=('interrupted', 'recovered'), bounds='interrupt at any wait, running commands touched their outputs or not; recovery build'))
+
+_C08_UNITS = ['build_log', 'state', 'graph', 'eval_env', 'debug_flags', 'disk_interface'] + _U
+CHECKS['C08'] = dict(
+    title='the build log survives torn writes, restarts, compaction and restat',
+    level_text='Bounded symbolic execution of the real BuildLog writer, loader, recompaction and restat on an in-memory file system: a session records commands (single-output, multi-output and space-containing names), the file is torn at a symbolic byte offset, and a symbolic continuation follows (reload; append a record behind the tear and reload; recompact with a symbolic dead output; restat all or one output). On every path the solver is asked for an offset/continuation for which loading fails, the loaded entries differ from the model "last completely written line per output", an entry carrying the true command hash is not a completely written record (a merged line must never make an output look up to date), or recompaction/restat change more than they should.',
+    level_note='Trusted: IR generation, interpreter and VFS (cross-checked natively on the real file system per run), z3, the 20-line expectation model. Bounds: two representative sequences of 1..3 recorded commands (4 in the thorough tier), tear at every byte, four continuations; a separate job loads a >256 KiB log whose lines straddle the reader buffer, and one checks the version header handling.',
+    assumptions=['one ninja process writes the log at a time', 'a write torn at any byte is modelled as the file truncated at that byte', 'bounds as stated per job'],
+    jobs=[dict(name='tear', harness='c08_buildlog.cc', units=_C08_UNITS, reach=['tear-none', 'tear-some', 'reloaded', 'appended', 'recompacted', 'restatted'], limits=dict(time=1500),
+               quick=dict(defines=['VERIF_SEQS=2', 'VERIF_MAXREC=2'], bounds='2 sequences x 1..2 recorded commands, torn at every byte offset, continuation in {reload, append one of 3 statements, recompact with none/one dead output, restat all/one output}'),
+               thorough=dict(defines=['VERIF_SEQS=2', 'VERIF_MAXREC=4'], bounds='2 sequences x 1..4 recorded commands, same tears and continuations', limits=dict(time=3000, max_paths=3000000))),
+          dict(name='version', harness='c08_buildlog.cc', units=_C08_UNITS, defines=['MODE_VERSION'], reach=['discarded', 'read'], bounds='log header version 1..12'),
+          dict(name='long', harness='c08_buildlog.cc', units=_C08_UNITS, defines=['MODE_LONG'], reach=['long-loaded'], limits=dict(max_steps=200000000, time=1500), validate=True,
+               bounds='a 330 KiB log of 5 records with output names of 262100..262140, 40, 70000 and 12 bytes: the records after the first straddle the 256 KiB reader buffer at 41 different alignments')])
+
+CHECKS['C18'] = dict(
+    title='cleaning removes only what ninja built, and all of it',
+    level_text='Bounded symbolic execution of the real Cleaner (CleanAll with/without -g, CleanTargets, CleanRules incl. the built-in phony rule, CleanDead, dyndep pre-loading) on a graph with depfile, rspfile, multi/implicit outputs, a generator statement, phony aliases, a source declared as a phony output and a dyndep-discovered output; which one of the built files is missing, the mode, its argument, -g and -n are symbolic. Every DiskInterface::RemoveFile call is checked against the scope computed by the harness; sources and phony names must survive; every existing in-scope file must be removed (dry run: counted, not removed).',
+    level_note='Trusted: IR generation, interpreter (cross-checked natively per run), z3, the scope tables of the harness (written from the manual). Bound: one graph shape (harness/c18_clean.cc), at most one built file missing, one target or rule per call. The generator exemption is asserted for plain clean only: CleanTest.CleanRuleGenerator pins that cleaning by rule removes generator outputs.',
+    assumptions=['one graph shape; at most one built file missing; one target or rule argument', 'generator outputs are exempt only from a plain clean without -g (rule/target cleaning is explicit)'],
+    jobs=[dict(name='clean', harness='c18_clean.cc', units=PIPELINE, reach=['clean-all', 'clean-target', 'clean-rule', 'clean-dead', 'dry-run'],
+               bounds='mode in {all, target, rule, cleandead} x argument menus x -g x -n x which built file is missing (14)')])
